@@ -428,6 +428,95 @@ func eqOf(g Guard, want bool, a, b func(ast.Expr) bool) bool {
 	return (a(unparen(x)) && b(unparen(y))) || (a(unparen(y)) && b(unparen(x)))
 }
 
+// guardsImply decides propositionally whether the conjunction of the guards entails `goal`:
+// the guards' conditions are read as formulas over !, &&, || whose leaves are atoms; atomOf
+// names the atoms the caller cares about ("" = an uninterpreted atom, keyed by its text, or by
+// its position when it contains a call); every assignment of the atoms that satisfies all
+// guards must satisfy goal. Uninterpreted atoms are free, so the answer errs towards "no".
+func (w *World) guardsImply(gs []Guard, atomOf func(ast.Expr) string, goal func(env map[string]bool) bool) bool {
+	names := map[string]bool{}
+	var order []string
+	name := func(e ast.Expr) string {
+		e = unparen(e)
+		if s := atomOf(e); s != "" {
+			return s
+		}
+		hasCall := false
+		ast.Inspect(e, func(n ast.Node) bool {
+			if _, ok := n.(*ast.CallExpr); ok {
+				hasCall = true
+			}
+			return true
+		})
+		if hasCall {
+			return "@" + w.Position(e.Pos())
+		}
+		return "$" + types.ExprString(e)
+	}
+	var collect func(e ast.Expr)
+	collect = func(e ast.Expr) {
+		e = unparen(e)
+		switch x := e.(type) {
+		case *ast.BinaryExpr:
+			if x.Op == token.LAND || x.Op == token.LOR {
+				collect(x.X)
+				collect(x.Y)
+				return
+			}
+		case *ast.UnaryExpr:
+			if x.Op == token.NOT {
+				collect(x.X)
+				return
+			}
+		}
+		if n := name(e); !names[n] {
+			names[n] = true
+			order = append(order, n)
+		}
+	}
+	for _, g := range gs {
+		collect(g.Cond)
+	}
+	if len(order) > 16 {
+		return false
+	}
+	var eval func(e ast.Expr, env map[string]bool) bool
+	eval = func(e ast.Expr, env map[string]bool) bool {
+		e = unparen(e)
+		switch x := e.(type) {
+		case *ast.BinaryExpr:
+			if x.Op == token.LAND {
+				return eval(x.X, env) && eval(x.Y, env)
+			}
+			if x.Op == token.LOR {
+				return eval(x.X, env) || eval(x.Y, env)
+			}
+		case *ast.UnaryExpr:
+			if x.Op == token.NOT {
+				return !eval(x.X, env)
+			}
+		}
+		return env[name(e)]
+	}
+	for m := 0; m < 1<<len(order); m++ {
+		env := map[string]bool{}
+		for i, n := range order {
+			env[n] = m&(1<<i) != 0
+		}
+		sat := true
+		for _, g := range gs {
+			if eval(g.Cond, env) != g.Val {
+				sat = false
+				break
+			}
+		}
+		if sat && !goal(env) {
+			return false
+		}
+	}
+	return true
+}
+
 // soleCallSite: the only call site of an unexported, declared function (static, synchronous); nil otherwise.
 func (w *World) soleCallSite(f *Fn) *CallSite {
 	if f == nil {
